@@ -14,8 +14,8 @@ MIN_BUDGET = {"quick": 25, "thorough": 120}
 RULE = ("seeded single-writer histories (5-14 ops) over {append in three call styles, two-append txn, delete file "
         "(+append, with/without leading slash), expire at a snapshot's timestamp -1/0/+1 (+append), delete_snapshot, "
         "retention-count property (valid and invalid values), metadata-log bound property (1/2/5 and invalid), "
-        "schema-divergent append (rejected), rollback, GC, clock advance, handle reopen} on local and CAS-S3, fine and "
-        "coarse clocks. After every pointer flip the independent reader's state must equal model.apply(previous "
+        "schema-divergent append (rejected), rollback, GC, clock advance, handle reopen} on local and CAS-S3, fine, "
+        "coarse and non-monotone (skewed writers taking turns) clocks. After every pointer flip the independent reader's state must equal model.apply(previous "
         "state, op) - snapshot set, parents = nearest surviving TRUE ancestor, sequence numbers, carried entries keep "
         "adding snapshot and sequence number, deletes remove exactly the named files, snapshot log, metadata log "
         "(content, order, bound, files exist) - and the state invariants hold (current retained, no dangling parent, "
@@ -32,8 +32,10 @@ CLAUSES = None
 
 def gen(rng: random.Random, tier: str, idx: int) -> dict:
     backend = "local" if rng.random() < 0.7 else "s3"
-    return {"backend": backend, "clock": rng.choice(["fine", "fine", "coarse"]), "quantum": rng.choice([0.05, 1.0]),
-            "ops": history.gen_history(rng)}
+    clock = rng.choice(["fine", "fine", "coarse", "nonmono"])
+    skews = [0.0, -5.0, -3600.0, 7.0, -0.5] if clock == "nonmono" else None
+    return {"backend": backend, "clock": "fine" if clock == "nonmono" else clock, "label": clock,
+            "quantum": rng.choice([0.05, 1.0]), "ops": history.gen_history(rng, skews=skews)}
 
 
 def shrink(plan: dict):
